@@ -1,6 +1,9 @@
 package mxj
 
-import "io"
+import (
+	"io"
+	"math"
+)
 
 func init() {
 	vHarnesses["H_C17_pure_query"] = H_C17_pure_query
@@ -8,6 +11,7 @@ func init() {
 	vHarnesses["H_C17_pure_indexed"] = H_C17_pure_indexed
 	vHarnesses["H_C17_copy"] = H_C17_copy
 	vHarnesses["H_C17_copy_named"] = H_C17_copy_named
+	vHarnesses["H_C17_copy_nan"] = H_C17_copy_nan
 	vHarnesses["H_C17_footprint"] = H_C17_footprint
 }
 
@@ -87,7 +91,15 @@ func H_C17_pure_encode() {
 		ms = MapSeq(mj)
 	}
 	mark := vMark(m, map[string]interface{}(ms))
-	switch vChoose(6) {
+	switch vChoose(7) {
+	case 5: // gob encoder (encoding/gob itself is a contract stub), also on json.Number values
+		_, _ = Map(m).Gob()
+		JsonUseNumber = true
+		mn, _ := NewMapJson([]byte("{\"n\":12,\"o\":{\"p\":1.5}}"))
+		JsonUseNumber = false
+		mk2 := vMark(map[string]interface{}(mn))
+		_, _ = mn.Gob()
+		vAssertUnchangedSince(mk2, "purity: the gob encoder leaves a Map of json.Number values as it was")
 	case 0:
 		_, _ = Map(m).Xml()
 	case 1:
@@ -259,4 +271,22 @@ func H_C17_copy_named() {
 	}
 	vAssertUnchangedSince(mark, "copy(named): mutating the copy leaves the original untouched")
 	vCover("named")
+}
+
+// Copy of a Map that JSON cannot represent (NaN / infinity): an error, or a copy that
+// shares nothing - never a shallow copy
+func H_C17_copy_nan() {
+	bad := []float64{math.NaN(), math.Inf(1), math.Inf(-1)}[vChoose(3)]
+	inner := map[string]interface{}{"c": vNondetString(1, 1, "xy"), "l": []interface{}{"p"}}
+	m := map[string]interface{}{"a": bad, "b": inner}
+	if vChoose(2) == 1 {
+		m = map[string]interface{}{"b": map[string]interface{}{"a": bad, "d": inner}}
+	}
+	c, err := Map(m).Copy()
+	if err == nil {
+		vAssert(!vShares(m, map[string]interface{}(c)), "copy(nan): a copy that is returned shares no map or list with the original")
+		vCover("copied")
+	} else {
+		vCover("refused")
+	}
 }
